@@ -55,7 +55,13 @@ fn run_property(env: &Env, rec: &Recorder) -> (String, String, Vec<&'static str>
         },
         "C17" =>
         {
-            let (r, a) = props::raw_family::run(env, rec, props::raw_family::Which::C17);
+            let (r, mut a) = props::raw_family::run(env, rec, props::raw_family::Which::C17);
+            if std::env::var("BLVERIF_NO_FUZZ").is_err()
+            {
+                props::c17_fuzz::run(env, rec);
+            }
+            a.push("libFuzzer campaigns are only approximately pinned by -seed/-runs; the saved input is the reproducible unit; inputs are capped at 4 KiB because of the parser's known super-linear cost on adversarial shapes (DESIGN.md section 6)");
+            let r = format!("{} PLUS coverage-guided libFuzzer campaigns on two in-process targets built from the same sources (fz_parse: parser under 8 configurations, oracle = no panic, ordered char-boundary offsets, line/column = position model; fz_edit: check+edit on a one-file project, oracle = no panic, insertion-only edit, insertions = parser prediction, check passes afterwards) with a dictionary and a generated seed corpus; for the fuzzers non-trivial = inputs that added coverage", r);
             ("exploration".into(), r, a)
         },
         "C01" =>
